@@ -27,7 +27,9 @@ def run(ctx, clause, scenarios, nontrivial=nontrivial_default, names_for=None, w
         for d in DRIVERS:
             nm = names_for(sc, d) if names_for else None
             w = workers_for(sc, d) if workers_for else None
-            jobs.append((sc, d, "%s-%d-%s" % (ctx.pid, i, d), nm, w))
+            for rep in range(sc.get("repeat", 1)):
+                ww = w if rep == 0 else [1, 2, 4, 8, 16][rep % 5]
+                jobs.append((sc, d, "%s-%d-%s%s" % (ctx.pid, i, d, "-r%d" % rep if rep else ""), nm, ww))
     def one(j):
         sc, d, rid, nm, w = j
         return nsplane.run_one(binary, sc, d, rid, names=nm, workers=w)
